@@ -4,9 +4,10 @@ from lib import fw
 
 PROP = 'C03'
 COQ_HEADER = 'From FV Require Import Common.Batch Model.C03_Model.'
-COQ_AGREE = 'C03_agree'
+COQ_AGREE = 'C03_agree_any'
 COQ_MODEL_TARGETS = ['Model/C03_Model']
-RULE = ('grid over (N, batch_size, buckets) + random large N + datasets obtained by slicing a larger parent '
+RULE = ('exhaustive sweep of the final-batch-size rule: batch_size 1..256 x remainder 0..bs-1 x buckets 1..10 (329k triples; public padded_batch() observation for bs <= 40 quick / 96 thorough) against an independent minimal-bucket computation and, in Coq, against the translated function; '
+        'grid over (N, batch_size, buckets) + random large N + datasets obtained by slicing a larger parent '
         '(d[a:b:c]: prefixes, suffixes, negative bounds, steps, reversed, empty, full); three call forms (hparams object, '
         'keywords, hparams object overridden by keywords); features of 12 dtypes / trailing shapes (int32 incl. values > 2^24, uint8[.,3,2], int8[.,1], float16, bfloat16, bool, object, S4, U3, datetime64[D], complex64), '
         'four call forms (+ the view classes directly), ints as python / NumPy scalar / 0-d array, fns as list / tuple / generator / iter / append(), '
@@ -70,6 +71,10 @@ def generate(tier, rng):
   else:
     grid = [(n, bs, nb) for n in range(0, 41) for bs in range(1, 18) for nb in range(1, 7)]
     nrand, nslice = 400, 1500
+  # exhaustive sweep of the final-batch-size rule: every batch_size up to 256, every remainder 0..bs-1,
+  # every bucket count 1..10, in chunks of 16 batch sizes
+  for lo in range(1, 257, 16):
+    yield {'pick_sweep': [lo, lo + 15, 10, 40 if tier == 'quick' else 96]}
   # the smallest sliced datasets first (a cached parent length shows on d[:k] with batch_size < parent size)
   for p in range(1, 5):
     for b in range(0, p + 1):
@@ -314,6 +319,69 @@ def _helpers_ok(ds, case):
   return bool(ok)
 
 
+def _rle(xs):
+  out = []
+  for v in xs:
+    if out and out[-1][0] == v:
+      out[-1][1] += 1
+    else:
+      out.append([v, 1])
+  return out
+
+
+def _run_pick_sweep(case):
+  """_pick_final_batch_size(rem, bs, nb) for the whole chunk (the anchored function is called
+  directly: stated use of a private function; the repository's own tests do the same), plus,
+  for batch sizes up to `pub`, the PUBLIC observation: the number of rows of the last batch of
+  padded_batch() over a dataset of `rem` rows.  If the private function is gone the public
+  observation is used for the whole chunk."""
+  import fedjax
+  from fedjax.core import client_datasets as cd
+  lo, hi, nbhi, pub = case['pick_sweep']
+  f = getattr(cd, '_pick_final_batch_size', None)
+  M = fedjax.EXAMPLE_MASK_KEY
+  dss = {}
+
+  def public(rem, bs, nb):
+    if rem == 0:
+      return bs      # no batch at all: nothing to observe, the rule says "no padding necessary"
+    if rem not in dss:
+      dss[rem] = fedjax.ClientDataset({'x': np.arange(rem, dtype=np.int32)})
+    last = list(dss[rem].padded_batch(batch_size=bs, num_batch_size_buckets=nb))[-1]
+    return int(last[M].shape[0]) if last[M].shape[0] == last['x'].shape[0] else -1
+  rows, mismatch = [], None
+  for bs in range(lo, hi + 1):
+    for nb in range(1, nbhi + 1):
+      row = []
+      for rem in range(bs):
+        v = int(f(rem, bs, nb)) if f is not None else public(rem, bs, nb)
+        if f is not None and bs <= pub and mismatch is None:
+          pv = public(rem, bs, nb)
+          if pv != v:
+            mismatch = [rem, bs, nb, v, pv]
+        row.append(v)
+      rows.append(_rle(row))
+  return {'runs': rows, 'public_mismatch': mismatch}
+
+
+def _oracle_pick_sweep(case, obs):
+  lo, hi, nbhi, _ = case['pick_sweep']
+  j = 0
+  for bs in range(lo, hi + 1):
+    for nb in range(1, nbhi + 1):
+      got = [v for v, c in obs['runs'][j] for _ in range(c)] if j < len(obs['runs']) else []
+      j += 1
+      for rem in range(bs):
+        want = _minimal_bucket(rem, bs, nb)
+        if rem >= len(got) or got[rem] != want:
+          g = got[rem] if rem < len(got) else None
+          return [('final-size', f'remainder {rem}, batch_size {bs}, {nb} buckets: final batch size {g}, minimal bucket is {want}')]
+  if obs['public_mismatch']:
+    rem, bs, nb, v, pv = obs['public_mismatch']
+    return [('final-size', f'remainder {rem}, batch_size {bs}, {nb} buckets: padded_batch() pads the last batch to {pv} rows, the size rule gives {v}')]
+  return []
+
+
 def _sentinel_ok(case):
   """A user feature named like the internal mask key is an ordinary feature for batch() / all_examples()."""
   import fedjax
@@ -331,6 +399,8 @@ def _sentinel_ok(case):
 
 
 def run(case):
+  if 'pick_sweep' in case:
+    return _run_pick_sweep(case)
   import itertools
   import fedjax
   ds, ex, given = _dataset(case)
@@ -474,6 +544,8 @@ def _minimal_bucket(n, bs, nb):
 
 
 def oracle(case, obs):
+  if 'pick_sweep' in case:
+    return _oracle_pick_sweep(case, obs)
   bs, nb = case['bs'], case['nb']
   out = []
   rows = _rows(case)
@@ -535,21 +607,30 @@ def oracle(case, obs):
 
 
 def encode(case, obs):
+  if 'pick_sweep' in case:
+    lo, hi, nbhi, _ = case['pick_sweep']
+    runs = fw.clist([fw.clist([f'({fw.zlit(v)}, {c})' for v, c in row]) for row in obs['runs']])
+    return f'(CPick {lo}%Z {hi}%Z {nbhi}%Z, OPick ({runs})%Z)'
   plain = fw.clist([fw.zlist(b) for b in obs['plain']])
   drop = fw.clist([fw.zlist(b) for b in obs['drop']])
   padded = fw.clist([f'({fw.zlist(x)}, {fw.blist(m)})' for x, m in obs['padded']])
   rows = _rows(case)      # a slice of range(P) is an arithmetic progression
   start = rows[0] if rows else 0
   step = rows[1] - rows[0] if len(rows) > 1 else 1
-  return (f'(mkC03 {len(rows)}%nat {case["bs"]}%Z {case["nb"]}%Z {fw.zlit(start)}%Z {fw.zlit(step)}%Z, '
-          f'mkO03 ({plain})%Z ({drop})%Z ({padded})%Z)')
+  return (f'(CView (mkC03 {len(rows)}%nat {case["bs"]}%Z {case["nb"]}%Z {fw.zlit(start)}%Z {fw.zlit(step)}%Z), '
+          f'OView (mkO03 ({plain})%Z ({drop})%Z ({padded})%Z))')
 
 
 def nontrivial(case, obs):
+  if 'pick_sweep' in case:
+    return True
   return len(_rows(case)) > 0
 
 
 def describe(case, obs):
+  if 'pick_sweep' in case:
+    lo, hi, nbhi, _ = case['pick_sweep']
+    return {'kind': 'final-size-sweep', 'sweep_triples': sum(range(lo, hi + 1)) * nbhi}
   n, bs = len(_rows(case)), case['bs']
   sl = case.get('slice')
   kind = ('none' if not sl else 'empty' if n == 0 else 'full' if n == sl[0] and (sl[3] or 1) > 0 else
@@ -564,6 +645,13 @@ def describe(case, obs):
 
 
 def shrink(case):
+  if 'pick_sweep' in case:
+    lo, hi, nbhi, pub = case['pick_sweep']
+    mid = (lo + hi) // 2
+    for cand in ([lo, mid, nbhi, pub], [mid + 1, hi, nbhi, pub], [lo, hi, nbhi - 1, pub]):
+      if cand[0] <= cand[1] and cand[2] >= 1 and cand != case['pick_sweep']:
+        yield {'pick_sweep': cand}
+    return
   if case.get('slice'):
     p, a, b, c = case['slice']
     for cand in ([p - 1, a, b, c], [p, None, b, c], [p, a, None, c], [p, a, b, None]):
